@@ -1,5 +1,5 @@
 (* C07 - format conversion.  Model: Model/Convert.v (to_zerv.rs x2, render pipeline) + Model/Render.v. *)
-From ZV Require Import Str Zerv Render Convert ConvertProofs SemVer Pep440 Pep440Nf PepRoundTrip SemVerRoundTrip OutputGrammar RegexSrc PepParseNf PepSemverRound PepOutNf Findings.
+From ZV Require Import Str Zerv Render Convert ConvertProofs SemVer Pep440 Pep440Nf PepRoundTrip SemVerRoundTrip OutputGrammar RegexSrc PepParseNf PepSemverRound PepOutNf SemVerExtRound Findings.
 From RelationAlgebra Require regex.
 
 (* SemVer -> Zerv always succeeds: the schema pushes of the PreReleaseProcessor never violate the placement rules,
@@ -97,6 +97,36 @@ Theorem c07_render_pep440_in_grammar : forall inf pre s t, render_cmd inf FPep44
   exists v, t = pre ++ v /\ regex.lang pep440_spec (map pep440_atom_of v).
 Proof. exact render_pep440_in_grammar. Qed.
 
+(* THE SEMVER RENDERING OF EVERY PEP 440 VERSION IS A FIXED POINT - any number of release numbers: the numbers beyond the third become leading
+   numeric pre-release identifiers  X.Y.Z-n4.n5...[epoch.E.][label.N.][post.P.][dev.D][+ids]  (the canonical shape extended by such a prefix);
+   zerv's own SemVer parser reads the printed text back to the same value, SemVer -> Zerv -> SemVer returns it unchanged.
+   (local_plain: an all-digit local segment of 2^32 or more, kept as text by PEP 440, is the one spelling excluded - SemVer reads it as a number) *)
+Theorem c07_extended_canonical_semver_unchanged : forall xs a b c e pl po pd bl,
+  Forall u64 xs -> u64 a -> u64 b -> u64 c -> opt_u64 e -> (match pl with Some (_, n) => u64 n | None => True end) -> opt_u64 po -> opt_u64 pd ->
+  (match bl with Some l => l <> [] /\ Forall ident_nf l | None => True end) ->
+  exists z, zerv_of_semver (ext_semver xs a b c e pl po pd bl) = Some z /\ semver_of_zerv z = ext_semver xs a b c e pl po pd bl.
+Proof. exact ext_roundtrip. Qed.
+
+Theorem c07_semver_rendering_of_pep440_fixed_point : forall p, pep_nf p -> local_plain p ->
+  let sv := semver_of_zerv (zerv_of_pep p) in
+  sv = ext_semver (skipn 3 (p_release p)) (r0 p) (r1 p) (r2 p) (f_epoch p) (f_pre p) (p_post_num p) (p_dev_num p) (f_build p) /\
+  semver_parse (semver_print sv) = Some sv /\
+  exists z, zerv_of_semver sv = Some z /\ semver_of_zerv z = sv.
+Proof. exact pep_semver_rendering_fixed_point. Qed.
+
+(* at the command, for every accepted PEP 440 string, with the input format given or auto-detected *)
+Theorem c07_render_pep440_to_semver_fixed_point : forall s p, pep_parse s = Some p -> local_plain p ->
+  exists t, render_cmd FPep440 FSemver [] s = OOk t /\ render_cmd FSemver FSemver [] t = OOk t /\ render_cmd FAuto FSemver [] t = OOk t.
+Proof. exact render_pep_to_semver_fixed_point. Qed.
+
+(* non-vacuity: 1!1.2.3.4.5rc6.dev7+ab  ->  1.2.3-4.5.epoch.1.rc.6.dev.7+ab  ->  itself *)
+Example c07_ex_four_release_numbers :
+  render_cmd FPep440 FSemver [] [49;33;49;46;50;46;51;46;52;46;53;114;99;54;46;100;101;118;55;43;97;98]%N
+    = OOk [49;46;50;46;51;45;52;46;53;46;101;112;111;99;104;46;49;46;114;99;46;54;46;100;101;118;46;55;43;97;98]%N /\
+  render_cmd FAuto FSemver [] [49;46;50;46;51;45;52;46;53;46;101;112;111;99;104;46;49;46;114;99;46;54;46;100;101;118;46;55;43;97;98]%N
+    = OOk [49;46;50;46;51;45;52;46;53;46;101;112;111;99;104;46;49;46;114;99;46;54;46;100;101;118;46;55;43;97;98]%N.
+Proof. vm_compute. split; reflexivity. Qed.
+
 (* non-vacuity: the input that used to panic, and a canonical round trip *)
 Example c07_ex_former_panic :
   match zerv_of_semver {| sv_major := 1; sv_minor := 0; sv_patch := 0;
@@ -133,3 +163,6 @@ Print Assumptions c07_render_pep440_fixed_point.
 Print Assumptions c07_pep440_via_semver_equal.
 Print Assumptions c07_parsed_pep440_via_semver_equal.
 Print Assumptions c07_every_pep440_rendering_fixed_point.
+Print Assumptions c07_extended_canonical_semver_unchanged.
+Print Assumptions c07_semver_rendering_of_pep440_fixed_point.
+Print Assumptions c07_render_pep440_to_semver_fixed_point.
